@@ -43,6 +43,18 @@ CHECKS = {
                    "subsidy intervals 1-150), timestamps steered to the clamps / min-difficulty / BIP94 / MTP edges, headers and blocks delivered under an advancing, skewed clock"),
              assumptions=_CHAINSIM_ASSUME + ["decides the header-history x parameter-set x clock facet of C09; the clauses quantified over every isolated 32-bit compact value / 256-bit target are reached only for values occurring in generated histories and mutated headers"],
              quick=dict(runs=200, budget=60), thorough=dict(budget=900), det_runs=30),
+ "C10": dict(engine="chainsim", race=False, level="exploration", cpus=2,
+             rule=(_CHAINSIM_RULE + "; pool profile: a real mempool + the real netsync block connect/disconnect handler + a real block template generator on the node; seeded transaction graphs (fresh spends, chains on pooled outputs, "
+                   "conflicts with and without replace-by-fee signalling at higher/lower fees, orphans submitted before their parents, free and below-minimum fees, lock times at the finality boundary) through ProcessTransaction / "
+                   "MaybeAcceptTransaction / CheckMempoolAcceptance / RemoveTransaction / RemoveDoubleSpends / RemoveOrphan(sByTag) / ProcessOrphans, interleaved with blocks mined from the pool by the harness, foreign blocks, reorganisations, "
+                   "restarts, clock advances; seeded relay/orphan/replacement/mining policies; whole-pool invariants after every step"),
+             assumptions=_CHAINSIM_ASSUME + ["operation-level interleavings are explored sequentially (every public mempool operation holds the pool mutex for its whole duration); concurrent callers under the race detector are the poolrace mode"],
+             quick=dict(runs=150, budget=75), thorough=dict(budget=900), det_runs=30),
+ "C12": dict(engine="chainsim", race=False, level="exploration", cpus=2,
+             rule=(_CHAINSIM_RULE + "; pool profile with template emphasis: NewBlockTemplate on reachable pool states, tips (incl. right after reorganisations and restarts) and seeded mining policies (min/max weight and size, priority area, minimum fee), "
+                   "pay-to address set or not; every template is checked clause by clause, then time / extra nonce are updated at a later clock value, the block is solved and fed back through ProcessBlock"),
+             assumptions=_CHAINSIM_ASSUME + ["signature-operation costs are recomputed by definition for the script shapes the world generates (P2PKH, P2WPKH, P2SH(OP_TRUE), bare OP_TRUE, OP_RETURN)"],
+             quick=dict(runs=150, budget=75), thorough=dict(budget=900), det_runs=30),
  "C14": dict(engine="chainsim", race=False, level="exploration", cpus=2,
              rule=(_CHAINSIM_RULE + "; votes profile: six seeded BIP9 deployment definitions per run (window 3-10, threshold 1..window, start/timeout by median time incl. past starts, speedy mode with custom threshold and/or "
                    "minimum activation height, always-active height), block versions voting each bit with probability threshold/window (windows end at threshold-1 and threshold), wrong top bits, forks with different vote histories; "
@@ -71,5 +83,24 @@ CHECKS = {
               "the v1-prefix downgrade path of RespondV2Handshake is not driven (not part of the statement as judged here)",
              ],
              cpus=2, quick=dict(runs=1200, budget=90), thorough=dict(budget=900), det_runs=30),
+ "C05": dict(engine="storesim", race=False, level="fault_enumeration", cpus=2,
+             rule=("one run = one seeded workload (5-60 operations: managed Update/View and manual Begin/Commit/Rollback; Put/Get/Delete, CreateBucket(IfNotExists)/DeleteBucket/Bucket nested 3 deep, ForEach/ForEachBucket, "
+                   "cursor scripts incl. Delete while iterating over pending+cached+on-disk keys; StoreBlock/HasBlock(s)/FetchBlock(s)/FetchBlockHeader(s)/FetchBlockRegion(s) incl. pending blocks and out-of-range regions; "
+                   "PruneBlocks/BeenPruned; Close+Open; clock advances across the flush interval; seeded cache size 'flush every commit'..'never', flush interval, block-file limit 'one block per file'..1 MiB) executed on the real ffldb "
+                   "(real goleveldb, background compaction off) on a simulated disk in lock-step with an in-memory model, in one of five separate batches: refine (fault-free, every result compared op by op, then the final state live and after Close+Open); "
+                   "ioerr (the same workload re-executed once per I/O call index k with call k failing: write / short write / sync / read / open / remove / leveldb-storage error; complete enumeration when the workload makes <= 90 I/O calls (400 thorough), seeded stride subset otherwise); "
+                   "crash_process and crash_powerloss (re-executed once per I/O index with the disk frozen at that call, post-crash disk built, 20% with a second crash while reopening); isolation (one writer, 1-3 readers holding View/Begin(false) snapshots, "
+                   "turn-based replayable interleaving, porcupine). non-trivial = at least one committed write transaction and, in the fault batches, at least one fault fired; "
+                   "distinct = hash of (batch, knob classes, per transaction: writable/managed/end kind + set of operation kinds, reopen/advance steps, fault kinds that fired)"),
+             assumptions=[
+              "the disk is the stub simfs: per file durable content as of the last successful Sync plus the ordered unsynced writes/truncates; directory operations (create, remove, rename, leveldb CURRENT pointer) are durable at once; power loss keeps per file a seeded prefix of its unsynced operations (block files: also an arbitrary subset or a torn write); process crash keeps every completed write",
+              "goleveldb runs for real on a harness storage.Storage with its background table compaction switched off through its own options (CompactionL0Trigger/WriteL0*Trigger huge, DisableSeeksCompaction) and WriteBuffer lowered to 64 KiB; ffldb's own leveldb options are untouched; reached through add-only hooks in database/ffldb guarded by the build tag verif",
+              "the reference model modeldb is written from database/interface.go: nested ordered maps, snapshot readers, single writer, commit log; block files are emulated as arithmetic only (record = block + 12 bytes, roll-over, PruneBlocks accounting as in ffldb)",
+              "not judged because the interface is silent or the store deviates only from its documentation, not from the statement: relative order of keys and nested buckets in a cursor (names are generated so that both readings agree), Seek/Next continuing from the keys into nested buckets, Delete/Put with a key equal to a bucket name, Delete with an empty key, Cursor.Delete in a read-only transaction, BeenPruned with a single remaining file, error codes under injected faults",
+              "under an injected I/O error the failing operation may return an error, nil or a shortened iteration (ffldb swallows leveldb read errors) but never wrong bytes; a fault inside an operation of a write transaction makes the harness roll that transaction back; a store that refuses service or hangs after a fault (goleveldb never releases its writer lock when the memdb flush inside OpenTransaction fails) is abandoned and the process restarted, after which the state must be a prefix of the committed transactions not shorter than the last completed flush",
+              "ENOSPC is never injected (ffldb answers it with os.Exit); disk-full is represented by the crash at the same I/O point",
+              "isolation interleavings are at the granularity of the actors' own steps (Begin, each read-all, each group of Puts, Commit); there are no yield points inside ffldb",
+             ],
+             quick=dict(runs=150, budget=80), thorough=dict(budget=900), det_runs=30, det_budget=150),
  "C99": dict(engine="smoke", race=False, level="exploration", rule="smoke", assumptions=[], quick=dict(runs=100, budget=20), thorough=dict(budget=30)),
 }
